@@ -12,8 +12,8 @@ e) the Query command that REPLAY is converted to requests ORDER BY event_id asce
 Noted, not armed: zone_merger::HeapItem::cmp compares context_id only, so equal contexts from different input segments are interleaved during compaction (reproduced: rows come back 1,5,2,6,…); since REPLAY orders by event id this no longer affects C04, and QUERY promises no order without ORDER BY.
 Not decided: that a requested order equals append order for every history (value level); routing stability is C12.a.
 """
-FLOOR = 4
-REQUIRED = ["C04.a", "C04.b", "C04.c", "C04.e"]
+FLOOR = 5
+REQUIRED = ["C04.a", "C04.b", "C04.c", "C04.e", "C04.f"]
 
 ORDER_OPS = re.compile(r"(slice::(sort\w*|reverse|swap|rotate_\w+|select_nth\w*)|Vec::(swap_remove|insert|dedup\w*)|VecDeque::(push_front|swap_remove\w*)|rayon::.*par_\w+|ParallelIterator\w*|BinaryHeap::\w+)$")
 
@@ -152,6 +152,49 @@ def run(ctx):
                 bad.append(("replay-narrowed:%s" % f, "REPLAY query carries %s (%s): rows could be dropped" % (f, fmt_leaves(Lf)), None))
         return bad
     ctx.run("C04.e", "K7 PROV", "Command::to_query_command", "REPLAY requests an order and is scoped to exactly the context", e)
+
+    def f_(inst):
+        """A shard answers an ordered read (REPLAY = ORDER BY event_id) from two flows, memtable and segments. `Everything on disk is
+        older than everything in memory` is false after a failed flush (its rows stay in a passive buffer while later rows reach a
+        segment). On the ordered arm of ShardFlowMerger::merge the output sender may therefore go to the heap merge
+        (OrderedStreamMerger::spawn) only - never to a task that forwards the flows back to back."""
+        bad = []
+        b = F.fn("streaming::merger::ShardFlowMerger::merge")
+        ob = one(b, r"QueryPlan::order_by_for_shard_level$")
+        ch = one(b, r"FlowChannel::bounded$")
+        sp_ = [c for c in b.calls if not c.cleanup and c.nname.endswith("ordered_merger::OrderedStreamMerger::spawn")]
+        if not sp_:
+            raise AnchorMissing("OrderedStreamMerger::spawn in ShardFlowMerger::merge")
+        some = variant_edge(b, ob, "Some")
+        region = set()
+        for e in some:
+            region |= edge_dominated(b, e)
+        tx = {l for l, proj in b.flow_forward(ch.dest) if True}
+        # the sender half: locals that reach a spawn argument
+        sender = set()
+        for c in sp_:
+            for a_ in c.args:
+                sender |= b._origin_locals(a_) & tx
+        if not sender:
+            raise AnchorMissing("the output sender handed to OrderedStreamMerger::spawn")
+        inst.sites = [sp(b, ob.bb)] + [sp(b, c.bb) for c in sp_]
+        for i_ in sorted(region):
+            for st in b.blocks[i_]["s"]:
+                v = st.get("v")
+                if v and v.get("r") == "agg" and v.get("ak") in ("closure", "coroutine"):
+                    if any((b._origin_locals(o) & sender) for o in v.get("o", [])):
+                        bad.append(("ordered-flows-forwarded-unmerged", "on its ordered arm ShardFlowMerger::merge hands the output sender to a task of its own (%s) instead of the heap merge: the flows are forwarded one after the other, which is the requested order only if every row on disk sorts before every row in memory" % (v.get("def") or "closure").split("::")[-1], sp(b, i_)))
+            t = b.blocks[i_]["t"]
+            if t["t"] == "call":
+                c = b.call_at(i_)
+                if c is not None and not c.cleanup and c not in sp_ and not re.search(r"mem::drop$|Clone>::clone$", c.nname) and any(b._origin_locals(a_) & sender for a_ in c.args) and not c.mac:
+                    bad.append(("ordered-flows-forwarded-unmerged", "on its ordered arm ShardFlowMerger::merge passes the output sender to %s instead of the heap merge" % c.nname.split("::")[-1], sp(b, i_)))
+        seen, out = set(), []
+        for x in bad:
+            if x[0] not in seen:
+                seen.add(x[0]); out.append(x)
+        return out
+    ctx.run("C04.f", "K7 PROV", "ShardFlowMerger::merge (ordered arm)", "memtable and segment flows of an ordered read are merged by key, never concatenated", f_)
 
     # noted only
     try:
